@@ -344,6 +344,10 @@ def rules(ctx):
     from .c13 import r1_typestate, r5_shared_defaults
     r1_typestate(ctx, rid="C11.R8", title="no run leaves individual latent values / data in the model (the next seeded run would start from them)")
     r5_shared_defaults(ctx, rid="C11.R9")
+    # the jobs handed to joblib run in worker processes whose generators the seeding of run() does not reach (and which keep their state
+    # from one call to the next): nothing may be drawn inside a job (same rule as C07.R3)
+    from .c07 import r3_job_effects
+    r3_job_effects(ctx, rid="C11.R11", title="nothing is drawn inside the per-subject jobs (worker processes are not seeded by run())")
     st = cg.stats()
     ctx.extra["call_sites"] = st
     ctx.trust("effect tables for torch / numpy / random / scipy.stats draws (sa/effects.py); joblib / matplotlib do not draw from the seeded generators")
